@@ -174,9 +174,11 @@ theorem frontEnd_srcT : frontEnd fs0 "/" [] (.source srcT) = .ok progT := by
 theorem progT_consts : resolveConstants HT progT [] = .ok (progT, []) := by decide +kernel
 
 /-- closed literals are label-free with the REAL evaluator: non-negative numerals by `C20.labelFree_literal`,
-    the two negative ones by computation -/
-theorem lf_m32 : ImmLabelFree HT [] (.arith "-32") := fun _ _ _ _ _ => rfl
-theorem lf_m5 : ImmLabelFree HT [] (.arith "-5") := fun _ _ _ _ _ => rfl
+    negative ones by `C20.labelFree_neg_literal` -/
+theorem lf_m32 : ImmLabelFree HT [] (.arith "-32") :=
+  labelFree_neg_literal HT rfl [] "-32" 32 (Or.inl (by decide +kernel))
+theorem lf_m5 : ImmLabelFree HT [] (.arith "-5") :=
+  labelFree_neg_literal HT rfl [] "-5" 5 (Or.inl (by decide +kernel))
 theorem lf_hex : ImmLabelFree HT [] (.arith "0x12345") :=
   labelFree_literal HT rfl [] "0x12345" 74565 (Or.inr (Or.inl (by decide +kernel))) (by decide +kernel)
 theorem lf_dw : ImmLabelFree HT [] (.arith "0x11223344") :=
